@@ -1,6 +1,8 @@
-"""C16 (clause 1 only) — converting a mixed graph to a latent-variable DAG and back returns an equal graph (RSI).
+"""C16 — LV-DAG round trip (RSI over a symbolic ADMG) and the Evans simplification clauses (c16_evans.py: RSI over
+a symbolic latent-variable DAG: idempotence, observed nodes kept, read-off graph = latent projection).
 
-The Evans-simplification clauses of C16 are outside the claim (DESIGN.md §8, C16).
+The corollary of C16 (separation relations and identifiability verdicts unchanged) is a consequence of the projection
+equality by the theory of latent projections and is not checked separately.
 """
 
 from __future__ import annotations
@@ -14,6 +16,7 @@ from ..common import Report, Unsupported, Violation, pmap, seed, short, tier
 from ..rsi.harness import SymInput, graph_differs, raise_guard, solve, universe
 from ..rsi.interp import Interp, SymMixed
 from ..rsi.sym import band, biff, bnot, bor, is_sym, lift
+from .c16_evans import evans_jobs, evans_work, native_api, native_api_corpus, native_corpus, native_evans
 
 PROP = "C16"
 
@@ -109,14 +112,28 @@ def run() -> int:
     rep = Report(PROP, "model_checking")
     rep.functions = [
         "y0/graph.py: NxMixedGraph.to_latent_variable_dag, _latent_dag, NxMixedGraph.from_latent_variable_dag, raise_on_counterfactual, add_directed_edge, add_undirected_edge (AST of the current source)",
+        "y0/algorithm/simplify_latent.py: simplify_latent_dag, transform_latents_with_parents, iter_middle_latents, iter_latents, remove_widow_latents, iter_widow_latents, remove_unidirectional_latents, iter_unidirectional_latents, remove_redundant_latents, _iter_redundant_latents, _assert_variable_nodes (AST of the current source; generators run lazily)",
+        "y0/algorithm/simplify_latent.py: evans_simplify; y0/graph.py: _ensure_set (AST of the current source)",
     ]
     rep.stubs = [
         "networkx models as in C14 (undirected edges are reported from their earlier-inserted endpoint; the insertion order is a symbolic permutation) plus node attributes (add_node(**attr), nx.set_node_attributes, graph.nodes.items()/values(), data[tag], tag in data)",
         "enumerate() over the sorted guarded list of bidirected edges: the latent index is the number of present earlier edges (guarded case split over (edge, index) pairs)",
+        "Evans clauses: nx.topological_sort yields the universe order, which is a topological order of every admissible input (edges respect the universe order) and stays one while the graph is rewritten; nx yields generation order instead - the rewriting of one latent does not touch the parents or children of a latent that is neither its ancestor nor its descendant, so the result does not depend on which topological order is used (cross-checked on the native corpus, whose insertion orders differ from the universe order)",
+        "Evans clauses: generators are coroutines (thread hand-off), `while` is unrolled |universe|+1 times with an unwinding assertion, len()/out_degree() of guarded collections are cardinality constraints, a dict comprehension over a guarded iterable is a guarded list of entries",
     ]
-    rep.bounds = {"universe_nodes": Ns, "graphs": "every ADMG on a subset of the universe, including nodes without edges", "solver_timeout_ms": timeout_ms}
-    rep.assumptions = ["ONLY the round-trip clause of C16 is claimed; the Evans simplification clauses (idempotence, projection equality, invariance of separation/identifiability) are outside the claim: simplify_latent_dag mutates the graph while consuming a lazy topological order and creates nodes with computed names (DESIGN.md §8)"]
-    rep.rule = "one query per N: all ADMGs on the universe; non-trivial = vacuity twin sat"
+    ejobs = evans_jobs(t)
+    rep.bounds = {
+        "universe_nodes": Ns,
+        "graphs": "round trip: every ADMG on a subset of the universe, including nodes without edges",
+        "evans": f"every DAG on a subset of n nodes whose edges respect the universe order, every subset tagged latent (latents with parents, 0/1/many children, nested, duplicated child sets); n in {sorted({j[1] for j in ejobs})}; name labellings {sorted({j[2] for j in ejobs})}",
+        "solver_timeout_ms": timeout_ms,
+    }
+    rep.assumptions = [
+        "Evans clauses: no node of the input is named <latent>_prime (the name transform_latents_with_parents gives the exogenous replacement of a latent with parents); every node carries the tag",
+        "the 'consequently' clause of C16 (separation relations and identifiability verdicts among observed nodes unchanged) follows from the projection equality by the theory of latent projections; it is not encoded",
+        "evans_simplify(graph, latents=S) (ADMG in, ADMG out) is checked against the latent projection of the ADMG onto the nodes outside S, each bidirected edge standing for its own exogenous latent (kind 'api')",
+    ]
+    rep.rule = "round trip: one query per N over all ADMGs on the universe; Evans: one query per (clause, n, labelling) over all admissible LV-DAGs; non-trivial = vacuity twin sat"
     states = 0
     for job, st, r in pmap(work, [(N, timeout_ms) for N in Ns]):
         if st != "ok":
@@ -145,7 +162,46 @@ def run() -> int:
             else:
                 rep.harness_errors.append(f"{key}: solver counterexample did not reproduce natively: {cex}")
         rep.add_sample({"query": key, "verdict": r["verdict"], "encode_s": round(r["encode_s"], 2), "solve_s": round(r["solve_s"], 2), "bool_vars": r["nvars"]})
+    for job, st, r in pmap(evans_work, ejobs):
+        if st != "ok":
+            rep.harness_errors.append(short(r, 800))
+            continue
+        rep.cases += 1
+        key = f"evans:{r['kind']} n={r['N']} names={r['labelling']}"
+        if r.get("status") == "unsupported":
+            rep.inconclusive += 1
+            rep.harness_errors.append(f"{key}: encoding cannot be built on this tree: {r['why']}")
+            continue
+        rep.obligations += 1
+        rep.solver_s += r["solve_s"]
+        states += r["nvars"]
+        if r["twin"] == "sat":
+            rep.nontrivial.add(key)
+        if r["verdict"] == "unsat":
+            rep.discharged += 1
+        elif r["verdict"] == "unknown":
+            rep.inconclusive += 1
+        else:
+            rep.refuted += 1
+            cex = r["cex"]
+            if cex["bad"]:
+                rep.add_violation(Violation(PROP, [key, "evans:" + "+".join(cex["bad"])], f"{cex['desc']}: {'+'.join(cex['bad'])} (got {cex.get('observed') or cex.get('twice')}; expected {cex.get('expected') or cex.get('once')})", {"property": PROP, "evans": True, **cex}))
+            else:
+                rep.harness_errors.append(f"{key}: solver counterexample did not reproduce natively: {cex}")
+        if len(rep.samples) < 12:
+            rep.add_sample({"query": key, "verdict": r["verdict"], "encode_s": round(r["encode_s"], 2), "solve_s": round(r["solve_s"], 2), "bool_vars": r["nvars"]})
+    ecnt = 0
+    for n in (3, 4):
+        c, ebad = native_corpus(n)
+        ecnt += c
+        for b in ebad[:5]:
+            rep.add_violation(Violation(PROP, ["native-evans", "evans:" + "+".join(b["bad"])], f"{b['desc']}: {'+'.join(b['bad'])} (got {b.get('observed') or b.get('twice')}; native validation corpus)", {"property": PROP, "evans": True, **b}))
+    c, ebad = native_api_corpus(3)
+    ecnt += c
+    for b in ebad[:5]:
+        rep.add_violation(Violation(PROP, ["native-evans-api", "evans:" + "+".join(b["bad"])], f"{b['desc']}: {'+'.join(b['bad'])} (got {b.get('observed')}; native validation corpus)", {"property": PROP, "evans": True, **b}))
     cnt, bad = validate_native(3)
+    cnt += ecnt
     for b in bad:
         rep.add_violation(Violation(PROP, ["native"], f"LV-DAG round trip of nodes={b['nodes']} di={b['di']} bi={b['bi']} gives {b['observed']} (native validation corpus)", {"property": PROP, **b}))
     rep.nontrivial.add("native-corpus")
@@ -156,6 +212,16 @@ def run() -> int:
 def replay(payload: dict) -> int:
     from y0.dsl import Variable as V
 
+    if payload.get("api"):
+        r = native_api([V(n) for n in payload["nodes"]], [V(n) for n in payload["latents"]], [(V(u), V(v)) for u, v in payload["di"]], [(V(u), V(v)) for u, v in payload["bi"]])
+        print(r)
+        print("reproduced" if r["bad"] else "not reproduced")
+        return 1 if r["bad"] else 0
+    if payload.get("evans"):
+        r = native_evans([V(n) for n in payload["nodes"]], [V(n) for n in payload["latents"]], [(V(u), V(v)) for u, v in payload["edges"]], [V(n) for n in payload["order"]])
+        print(r)
+        print("reproduced" if r["bad"] else "not reproduced")
+        return 1 if r["bad"] else 0
     r = native_case([V(n) for n in payload["nodes"]], [(V(u), V(v)) for u, v in payload["di"]], [(V(u), V(v)) for u, v in payload["bi"]], [V(n) for n in payload.get("order", payload["nodes"])])
     print(r)
     print("reproduced" if r["bad"] else "not reproduced")
